@@ -103,6 +103,72 @@ fn check() {
     }
     samples.push(json!({"round_robin": {"members": 3, "offset": 4, "window": 6, "expected_counts": [2, 2, 2]}}));
 
+    // ---- nested balancers and failing members: whatever the path through the balancers, the connection's record names
+    //      the member that was actually asked to connect (the leaf), also when that member refuses
+    {
+        // (name, members) per balancer; leaves m0..m2 accept, bad refuses
+        let graphs: Vec<Vec<(&str, Vec<&str>)>> = vec![
+            vec![("outer", vec!["inner"]), ("inner", vec!["m0", "m1"])],
+            vec![("outer", vec!["inner", "m2"]), ("inner", vec!["m0", "m1"])],
+            vec![("outer", vec!["mid"]), ("mid", vec!["inner"]), ("inner", vec!["m0"])],
+            vec![("outer", vec!["bad"])],
+            vec![("outer", vec!["inner"]), ("inner", vec!["bad"])],
+            vec![("outer", vec!["inner"]), ("inner", vec!["m0", "bad"])],
+        ];
+        for algo in ["algo: rr", "algo: random", "algo:\n  hashBy: request.target.host"] {
+            for g in &graphs {
+                let log: Log = Default::default();
+                let mut cs = members(3, &log);
+                cs.push(Recorder::new("bad", &[Feature::TcpForward], Upstream::Refuse, log.clone()) as Arc<dyn Connector>);
+                let mut first = None;
+                for (name, ms) in g {
+                    let yaml = format!("name: {}\ntype: loadbalance\nconnectors: [{}]\n{}", name, ms.join(", "), algo);
+                    let lb: Arc<dyn Connector> = match catch(|| lb_from_yaml(&yaml)) {
+                        Ok(Ok(mut b)) => {
+                            block_on(b.init()).expect("init");
+                            Arc::from(b)
+                        }
+                        other => machinery(format!("cannot build balancer {name}: {:?}", other.map(|r| r.map(|_| ())))),
+                    };
+                    if first.is_none() {
+                        first = Some(lb.clone());
+                    }
+                    cs.push(lb);
+                }
+                let outer = first.unwrap();
+                let state = make_state(cs, 0);
+                let r = req("l", "127.0.0.1:1", TargetAddress::DomainPort("t".into(), 80));
+                for i in 0..6 {
+                    selections += 1;
+                    let before = log.lock().unwrap().len();
+                    let res = catch(|| {
+                        block_on(async {
+                            let (ctx, _) = make_request(&state, &r, b"", Default::default()).await;
+                            let res = outer.clone().connect(state.clone(), ctx.clone()).await;
+                            let rec = ctx.read().await.props().connector.clone();
+                            (res.is_ok(), rec)
+                        })
+                    });
+                    let contacted: Vec<String> = log.lock().unwrap()[before..].iter().map(|l| l.trim_start_matches("connect:").to_string()).collect();
+                    let shape = format!("{:?} {}", g, algo.replace('\n', " "));
+                    match res {
+                        Err(p) => chk.violation("loadbalance.record", "panic", format!("{shape}: {p}"), json!({"graph": format!("{:?}", g)})),
+                        Ok((ok, rec)) => {
+                            outcomes.add(&("nested", g.len(), ok, contacted.len()));
+                            if contacted.len() != 1 {
+                                chk.violation("loadbalance.record", "not-exactly-one-member-contacted", format!("{shape} selection {i}: contacted {:?}", contacted), json!({"graph": format!("{:?}", g)}));
+                            } else if rec.as_deref() != Some(contacted[0].as_str()) {
+                                let class = if ok { "recorded-member-differs:nested" } else { "recorded-member-differs:member-refused" };
+                                chk.violation("loadbalance.record", class, format!("{shape} selection {i}: member {} was asked to connect (success: {ok}), the connection records {:?}", contacted[0], rec), json!({"graph": format!("{:?}", g), "algo": algo, "used": contacted[0], "recorded": rec}));
+                            }
+                        }
+                    }
+                }
+            }
+        }
+        samples.push(json!({"nested": {"graphs": graphs.len(), "algorithms": 3, "selections_each": 6}}));
+    }
+
     // ---- hashBy: equal key value => equal member; member configured; recorded == used; non-string keys rejected
     let keys: Vec<(&str, fn(&Req) -> String)> = vec![
         ("request.source.host", |r| r.source.ip().to_string()),
@@ -248,7 +314,7 @@ fn check() {
         "exhaustive": true,
         "states": outcomes.len(), "transitions": selections, "traces_validated_against_impl": selections + loom_cov["schedules"].as_u64().unwrap_or(0),
         "evaluations": selections + random_draws, "distinct_nontrivial": outcomes.len(),
-        "rule": "sequential: every member count 1..5 x cursor offset 0..2n x window k*n (k=1..3) through the real connect(); hashBy: 7 key expressions x 36-request pool twice x member counts 1..5; loom: all interleavings of 2-3 threads x 1-3 selections on the real connect() with the cursor as a loom atomic. distinct = distinct (members, key, selected member) observations",
+        "rule": "sequential: every member count 1..5 x cursor offset 0..2n x window k*n (k=1..3) through the real connect(); hashBy: 7 key expressions x 36-request pool twice x member counts 1..5; nested balancers (2-3 levels) and refusing members x 3 algorithms: the recorded member is the leaf that was asked to connect; loom: all interleavings of 2-3 threads x 1-3 selections on the real connect() with the cursor as a loom atomic. distinct = distinct (members, key, selected member) observations",
         "loom": loom_cov,
         "random_draws_sampled": random_draws,
         "samples": samples,
